@@ -1,7 +1,7 @@
 """C07 - An IdP never releases attributes beyond what its policy allows."""
 import ast
 
-from ..match import facts, Q
+from ..match import facts, Q, just
 from ..srcmodel import attr_chain, call_name, unparse, norm_text, walk_no_nested
 from ..cfg import cfg_of, CFG
 from ..dataflow import Origins
@@ -325,7 +325,7 @@ def r4_policy_filter(run):
         else:
             rets = [r.id for r in cfg.by_kind("return")]
             wit = unguarded_path(cfg, d.id, rets, checks,
-                                 lambda e, p: unparse(e) == rname and p is False)
+                                 just(cfg, (rname, False)))
             run.check(wit is None, "R4", key,
                       "every path with restrictions passes the value filter "
                       "last", "a path returns without applying configured "
